@@ -17,7 +17,7 @@ RULE = ('enumeration of each codec domain in blocks (case = codec family x value
 ASSUMPTIONS = ['vf.ref.wire transcribes RFC 4880 correctly (cross-checked by its own round-trips and the fixture parse)',
                'CPython int/bytes semantics']
 MIN_COUNTERS = {'quick': {'newlen_enc': 70000, 'newlen_dec2': 8192, 'oldlen_dec': 60000, 'splen_dec2': 16000, 'mpi': 4000,
-                          's2k_count': 256, 'time': 1000, 'partial': 50, 'growth': 30},
+                          's2k_count': 256, 'time': 1000, 'partial': 50, 'growth': 30, 'areas': 60},
                 'thorough': {'newlen_enc': 70000, 'partial': 500}}
 BUDGET = {'quick': (600, 1500), 'thorough': (1200, 3600)}
 
@@ -72,6 +72,10 @@ def cases(tier, seed):
     for fmt in ('old0', 'old1', 'old2', 'new'):
         for tag in (13, 11, 2, 8, 61):
             cs.append({'f': 'growth', 'fmt': fmt, 'tag': tag})
+    # the two-octet octet counts in front of the subpacket areas of signatures PGPy builds, with subpackets on either side of each length-form boundary
+    ns = [20, 150, 189, 190, 191, 192, 193, 194, 255, 256, 257, 1000, 8381, 8382, 8383, 8384, 8385, 8386, 20000, 60000]
+    for i in range(0, len(ns), 4):
+        cs.append({'f': 'areas', 'ns': ns[i:i + 4]})
     return cs
 
 
@@ -330,6 +334,9 @@ def run_case(ctx, d):
     elif f == 'growth':
         _growth(ctx, d)
         hard = True
+    elif f == 'areas':
+        _areas(ctx, d)
+        hard = True
     else:
         raise ValueError(f)
     if hard:
@@ -405,6 +412,55 @@ def _times_aware(ctx, d):
         got = int.from_bytes(bytes(c.__bytearray__())[2:6], 'big')
         if got != t:
             ctx.fail('sig-created-aware-datetime', {'t': t, 'utcoffset_h': off, 'written': got})
+
+
+def _areas(ctx, d):
+    """signatures PGPy builds with a subpacket of exactly n octets (type octet included) in the signed area - alone, twice, and next to short ones:
+    the reference reads each area by its two-octet count, the subpackets must fill it exactly, and the signature still verifies after a reload"""
+    import warnings
+    import pgpy
+    from .. import pool
+    from ..ref import sig as RS
+    with warnings.catch_warnings():
+        warnings.simplefilter('ignore')
+        k = pool.pgpy_key('ed25519_0', uid='areas')
+        pub = k.pubkey
+        for n in d['ns']:
+            v = n - 12        # notation subpacket: type 1 + flags 4 + two lengths 4 + name 3 + value
+            u = n - 1         # policy URI subpacket: type 1 + text
+            variants = [('notation', dict(notation={'n@x': 'v' * v})), ('policy', dict(policy_uri='p' * u)),
+                        ('two', dict(notation={'n@x': 'v' * v, 'm@x': 'w' * v} if 2 * n < 65000 else {'n@x': 'v' * v}, policy_uri='https://short.example/')),
+                        ('both-long', dict(notation={'n@x': 'v' * v}, policy_uri='p' * min(u, 65000 - n)) if 2 * n < 65000 else None)]
+            for label, kw in variants:
+                if kw is None:
+                    continue
+                ctx.count('areas')
+                ctx.count('evaluations')
+                where = {'subpacket_octets': n, 'variant': label}
+                try:
+                    s = k.sign('areas document', **kw)
+                    out = bytes(s)
+                except Exception as e:
+                    ctx.outcome('areas_refused:' + type(e).__name__)
+                    continue
+                try:
+                    pk = wire.split(out)
+                    assert len(pk) == 1 and pk[0].tag == 2
+                    ps = RS.parse_sig(pk[0].body)
+                    lens = sorted(len(raw) - (1 if len(b) + 1 < 192 else (2 if len(b) + 1 < 8384 else 5)) for t, c, b, raw in ps['hsp'])
+                    if n not in lens:
+                        ctx.fail('signed-area-does-not-hold-the-subpacket-that-was-asked-for', dict(where, sizes=lens))
+                except (wire.Malformed, AssertionError, Exception) as e:
+                    ctx.fail('subpacket-area-count-wrong', dict(where, err=repr(e)[:160], head=hx(out[:12])))
+                    continue
+                try:
+                    s2 = pgpy.PGPSignature.from_blob(out)
+                    if bytes(s2) != out:
+                        ctx.fail('signature-octets-change-on-reload', dict(where, lens=[len(out), len(bytes(s2))]))
+                    if not pub.verify('areas document', s2):
+                        ctx.fail('signature-fails-after-reload', where)
+                except Exception as e:
+                    ctx.fail('subpacket-area-count-wrong', dict(where, err='reload: ' + repr(e)[:140]))
 
 
 def _growth(ctx, d):
